@@ -427,12 +427,19 @@ func getMethodMapName(method core_domain.CodeFunction) string {
 }
 
 func (s *JavaFullListener) EnterCreator(ctx *parser.CreatorContext) {
-	variableName := ctx.GetParent().GetParent().GetChild(0).(antlr.ParseTree).GetText()
+	// only `x = new T(...)` gives a variable the created type; an argument, an initializer
+	// or a receiver `new T(...)` has no variable in front of it
+	variableName := ""
+	if assign, ok := ctx.GetParent().GetParent().(*parser.ExpressionContext); ok && assign.ASSIGN() != nil {
+		variableName = assign.GetChild(0).(antlr.ParseTree).GetText()
+	}
 	allIdentifiers := ctx.CreatedName().(*parser.CreatedNameContext).AllIdentifier()
 
 	for _, identifier := range allIdentifiers {
 		createdName := identifier.GetText()
-		localVars[variableName] = createdName
+		if variableName != "" {
+			localVars[variableName] = createdName
+		}
 
 		buildCreatorCall(createdName, ctx)
 
